@@ -55,7 +55,7 @@ def strip_volatile(res):
     executions of the same plan (return addresses of allocation sites, step counts
     which depend on the exact instrumentation of the build)."""
     if isinstance(res, dict):
-        return {k: strip_volatile(v) for k, v in res.items() if k not in ("ra", "steps", "stderr")}
+        return {k: strip_volatile(v) for k, v in res.items() if k not in ("ra", "steps", "stderr", "tsan_reports")}
     if isinstance(res, list):
         return [strip_volatile(v) for v in res]
     return res
@@ -89,6 +89,7 @@ class Executor:
 
     def start(self):
         self.errf = open(self.stderr_path, "wb")
+        self._err_off = 0
         self.p = subprocess.Popen([self.binary, "--root", self.root] + self.extra_args, stdin=subprocess.PIPE,
                                   stdout=subprocess.PIPE, stderr=self.errf, env=self.env, bufsize=0)
         self.rd = os.fdopen(self.p.stdout.fileno(), "rb", buffering=1 << 16, closefd=False)
@@ -207,3 +208,20 @@ def classify_crash(res):
                 frame = fn
                 break
     return kind + (":" + frame if frame else "")
+
+
+def take_stderr(ex):
+    """new stderr output of an executor since the last call"""
+    try:
+        ex.errf.flush()
+    except Exception:
+        pass
+    off = getattr(ex, "_err_off", 0)
+    try:
+        with open(ex.stderr_path, "rb") as f:
+            f.seek(off)
+            data = f.read()
+    except OSError:
+        return ""
+    ex._err_off = off + len(data)
+    return data.decode("latin-1")
